@@ -11,6 +11,11 @@
  *                     retained-text doubles to set_serializer(NULL): there W addresses nothing)
  *   Y<path>=<hex>     install json_object_userdata_to_json_string with the bytes, then reset with (NULL, NULL, NULL)
  *   G<path>=<hex>     on a double: install json_object_double_to_json_string with the bytes as format, then reset
+ *   F<who><scope>=<hex|~>  json_c_set_serialization_double_format(bytes (~ = NULL), scope) -> step "F <return value>"
+ *                     who: m the main thread, h a helper thread that makes the call and exits (pthread_create + join),
+ *                     p a helper thread that stays alive until the case ends; scope: g GLOBAL, t THREAD, x an invalid value.
+ *                     The main thread serializes.  At the end of the case the helper and the main thread drop their
+ *                     thread formats and the global format is reset.
  *   A<path>:<jvtext> replace the child (array_put_idx / object_add on the
  *   existing key)   X<path> delete the child (array_del_idx / object_del);  <path> = @ (root) or i.j.k (child positions)
  * then a step "tree <typed dump>" (and "aside <typed dump>" after K) precedes the per-flag steps.  Per flag value
@@ -19,6 +24,7 @@
  * sequences ESC [ ... m are removed before the re-parse (the text column shows them). */
 #include "jvtext.h"
 #include "json_tokener.h"
+#include <pthread.h>
 const char *DOMAIN = "ser";
 
 static const char *err_name(enum json_tokener_error e)
@@ -138,6 +144,91 @@ static int has_retained_text(struct json_object *n)
 	return n->_userdata && n->_user_delete == json_object_free_userdata;
 }
 
+/* ---- option formats set from the main thread or from helper threads ---- */
+static long expected_lost = 0;       /* thread formats of exited threads: json-c has no hook to free them */
+static int formats_touched = 0;
+struct fmt_call { const char *fmt; int scope; int rc; };
+static void *oneshot_main(void *arg)
+{
+	struct fmt_call *c = (struct fmt_call *)arg;
+	c->rc = json_c_set_serialization_double_format(c->fmt, c->scope);
+	return NULL;
+}
+static struct {
+	pthread_t th; int alive; pthread_mutex_t mu; pthread_cond_t cv;
+	int cmd;                 /* 0 idle, 1 make the call, 2 leave */
+	struct fmt_call call; int done;
+} ph = { .mu = PTHREAD_MUTEX_INITIALIZER, .cv = PTHREAD_COND_INITIALIZER };
+static void *persistent_main(void *arg)
+{
+	(void)arg;
+	pthread_mutex_lock(&ph.mu);
+	for (;;) {
+		while (ph.cmd == 0) pthread_cond_wait(&ph.cv, &ph.mu);
+		if (ph.cmd == 2) break;
+		ph.call.rc = json_c_set_serialization_double_format(ph.call.fmt, ph.call.scope);
+		ph.cmd = 0; ph.done = 1;
+		pthread_cond_broadcast(&ph.cv);
+	}
+	json_c_set_serialization_double_format(NULL, JSON_C_OPTION_THREAD);   /* do not leave the thread's format behind */
+	ph.cmd = 0; ph.done = 1;
+	pthread_cond_broadcast(&ph.cv);
+	pthread_mutex_unlock(&ph.mu);
+	return NULL;
+}
+static int persistent_call(const char *fmt, int scope, int leave)
+{
+	int rc;
+	if (!ph.alive) {
+		if (leave) return 0;
+		ph.cmd = 0; ph.done = 0;
+		pthread_create(&ph.th, NULL, persistent_main, NULL);
+		ph.alive = 1;
+	}
+	pthread_mutex_lock(&ph.mu);
+	ph.call.fmt = fmt; ph.call.scope = scope; ph.done = 0;
+	ph.cmd = leave ? 2 : 1;
+	pthread_cond_broadcast(&ph.cv);
+	while (!ph.done) pthread_cond_wait(&ph.cv, &ph.mu);
+	rc = ph.call.rc;
+	pthread_mutex_unlock(&ph.mu);
+	if (leave) { pthread_join(ph.th, NULL); ph.alive = 0; }
+	return rc;
+}
+static void formats_cleanup(void)
+{
+	if (!formats_touched) return;
+	persistent_call(NULL, 0, 1);
+	json_c_set_serialization_double_format(NULL, JSON_C_OPTION_THREAD);
+	json_c_set_serialization_double_format(NULL, JSON_C_OPTION_GLOBAL);
+	formats_touched = 0;
+}
+static int format_op(const char *op)
+{
+	/* F<who><scope>=<hex|~> */
+	char who = op[1], sc = op[2];
+	int scope = sc == 'g' ? JSON_C_OPTION_GLOBAL : sc == 't' ? JSON_C_OPTION_THREAD : 7, rc;
+	char *fmt = NULL;
+	if (!who || !sc || op[3] != '=') return -99;
+	if (op[4] != '~') {
+		size_t n; unsigned char *b = unhex(op + 4, &n);
+		fmt = (char *)(malloc)(n + 1); memcpy(fmt, b, n); fmt[n] = 0; (free)(b);
+	}
+	formats_touched = 1;
+	if (who == 'm') rc = json_c_set_serialization_double_format(fmt, scope);
+	else if (who == 'h') {
+		struct fmt_call c = { fmt, scope, 0 };
+		pthread_t th;
+		pthread_create(&th, NULL, oneshot_main, &c);
+		pthread_join(th, NULL);
+		rc = c.rc;
+		if (rc == 0 && scope == JSON_C_OPTION_THREAD && fmt) expected_lost++;
+	} else if (who == 'p') rc = persistent_call(fmt, scope, 0);
+	else rc = -99;
+	if (fmt) (free)(fmt);
+	return rc;
+}
+
 /* returns 0 when the history has to stop (a step was printed that says why) */
 static int apply_op(char *op, struct json_object **t, struct json_object **aside, int *has_aside, int *nsteps)
 {
@@ -209,6 +300,12 @@ static int apply_op(char *op, struct json_object **t, struct json_object **aside
 		case 'T': { size_t len; unsigned char *b = unhex(p, &len); json_object_set_string_len(n, (const char *)b, (int)len); (free)(b); break; }
 		}
 		return 1;
+	case 'F': {
+		int rc = format_op(op);
+		if ((*nsteps)++) printf(" | ");
+		if (rc == -99) { printf("BADOP"); return 0; }
+		printf("F %d", rc);
+		return 1; }
 	case 'A': case 'X': {
 		struct json_object *v = NULL;
 		int err = 0;
@@ -301,6 +398,8 @@ void run_case(char *rest)
 		(free)(copy);
 	}
 	json_object_put(o);
+	formats_cleanup();
+	live0 += expected_lost; expected_lost = 0;
 	if (xa_live != live0) printf(" | LEAK %ld", xa_live - live0);
 	else if (tags_live != 0) { printf(" | LEAK userdata %ld", tags_live); tags_live = 0; }
 }
